@@ -16,6 +16,7 @@
 (* chain (MC_Calendar) as refinement obligations.                          *)
 (***************************************************************************)
 EXTENDS Integers
+\* (the typing comments in front of some operators are Apalache annotations, used by Apa_Calendar; TLC ignores them)
 
 YMinDef == -4712
 
@@ -35,6 +36,7 @@ IsCivil(yy, mm, dd) ==
 
 Start == [y |-> YMinDef, m |-> 1, d |-> 1, jdn |-> 0, doy |-> 1, dow |-> 1]
 
+\* @type: ({ y: Int, m: Int, d: Int, jdn: Int, doy: Int, dow: Int }) => { y: Int, m: Int, d: Int, jdn: Int, doy: Int, dow: Int };
 NextDay(c) ==
   LET j == c.jdn + 1   w == (c.dow + 1) % 7 IN
   IF c.y = 1582 /\ c.m = 10 /\ c.d = 4
@@ -77,6 +79,7 @@ MeeusFwd(yy, mm, dd) ==          \* Epoch._compute_jde at 0h:  result + 1/2 = jd
       b  == IF IsJulianCode(y2, m2, dd) THEN 0 ELSE 2 - a + (a \div 4)
   IN (36525 * (y2 + 4716)) \div 100 + (306001 * (m2 + 1)) \div 10000 + dd + b - 1524
 
+\* @type: (Int) => <<Int, Int, Int>>;
 MeeusInv(z) ==                   \* Epoch.get_date for an integral day: <<y, m, d>>
   LET a == IF z < 2299161 THEN z
            ELSE LET alpha == (100 * z - 186721625) \div 3652425
@@ -102,16 +105,27 @@ DoyFormula(yy, mm, dd) ==
   IN IF yy = 1582 /\ (mm > 10 \/ (mm = 10 /\ dd >= 15)) THEN n - 10 ELSE n
 
 \* ---- invariants over a chain state c -----------------------------------------
+\* @type: ({ y: Int, m: Int, d: Int, jdn: Int, doy: Int, dow: Int }) => Bool;
 InvFwd(c)   == MeeusFwd(c.y, c.m, c.d) = c.jdn
+\* @type: ({ y: Int, m: Int, d: Int, jdn: Int, doy: Int, dow: Int }) => Bool;
 InvBwd(c)   == MeeusInv(c.jdn) = <<c.y, c.m, c.d>>
+\* @type: ({ y: Int, m: Int, d: Int, jdn: Int, doy: Int, dow: Int }) => Bool;
 InvCivil(c) == IsCivil(c.y, c.m, c.d)
+\* @type: ({ y: Int, m: Int, d: Int, jdn: Int, doy: Int, dow: Int }) => Bool;
 InvJan1(c)  == (c.m = 1 /\ c.d = 1) => (c = Jan1(c.y))
+\* @type: ({ y: Int, m: Int, d: Int, jdn: Int, doy: Int, dow: Int }) => Bool;
 InvDow(c)   == c.dow = (c.jdn + 1) % 7
+\* @type: ({ y: Int, m: Int, d: Int, jdn: Int, doy: Int, dow: Int }) => Bool;
 InvGregDow(c) == (c.y >= 1583) => (c.dow = GregDow(c.y, c.m, c.d))
+\* @type: ({ y: Int, m: Int, d: Int, jdn: Int, doy: Int, dow: Int }) => Bool;
 InvYearEnd(c) == (c.m = 12 /\ c.d = 31) => (c.doy = YLen(c.y))
+\* @type: ({ y: Int, m: Int, d: Int, jdn: Int, doy: Int, dow: Int }) => Bool;
 InvDoy(c)   == c.doy = c.jdn - Jan1JDN(c.y) + 1
+\* @type: ({ y: Int, m: Int, d: Int, jdn: Int, doy: Int, dow: Int }) => Bool;
 InvDoyFormula(c) == c.doy = DoyFormula(c.y, c.m, c.d)
+\* @type: ({ y: Int, m: Int, d: Int, jdn: Int, doy: Int, dow: Int }) => Bool;
 InvLeapCode(c) == LeapCode(c.y) = Leap(c.y)
+\* @type: ({ y: Int, m: Int, d: Int, jdn: Int, doy: Int, dow: Int }) => Bool;
 InvAnchors(c) ==
   /\ (c.y = -4712 /\ c.m = 1 /\ c.d = 1) => c.jdn = 0
   /\ (c.y = 1858 /\ c.m = 11 /\ c.d = 17) => c.jdn = 2400001
